@@ -260,6 +260,11 @@ def harnesses(tier):
         "T3 canonicalize||canonicalize": (["canon-pre|v3:single", "canon-pre|v3:isoA"], "dfa-cold"),
         "T4 serialize||serialize": (["serialize-pre|v3:single", "serialize-pre|v3:single"], "dfa-cold"),
         "T5 write||canonicalize": (["write-pre|v3:single", "canon-pre|v3:salt"], "dfa-cold"),
+        # the same single calls with every BYTECODE INSTRUCTION of the library's own functions as a scheduling point
+        # (races inside one source line), preemption bound 1
+        "I3 canonicalize||canonicalize (instruction level)": (["canon-pre|v3:single", "canon-pre|v3:isoA"], "dfa-cold"),
+        "I4 serialize||serialize (instruction level)": (["serialize-pre|v3:single", "serialize-pre|v3:isoA"], "dfa-cold"),
+        "I5 write||canonicalize (instruction level)": (["write-pre|v3:single", "canon-pre|v3:salt"], "dfa-cold"),
         # fresh module-level state of the whole library before every execution (first use of lazily built tables)
         "H0 cold modules: read||read": (["read|v3:single", "read|v3:many-elements"], "cold-modules"),
     }
@@ -305,6 +310,12 @@ def _sched_job(job):
     if _SCHED is None:
         _SCHED = S.Scheduler()
         _SCHED.instrument(_sched_codes())
+    want = "instruction" if hname.startswith("I") else "line"
+    if getattr(_SCHED, "mode", "line") != want:
+        _SCHED.uninstrument()
+        codes = _sched_codes()
+        fine = [c for c in codes if "/tucan/" in c.co_filename.replace("\\", "/") and "/antlr4/" not in c.co_filename] if want == "instruction" else ()
+        _SCHED.instrument(codes, fine)
     bodies_named, init = harnesses(tier)[hname]
     items = dict(W.items())
     out = []
@@ -321,7 +332,7 @@ def _sched_job(job):
             modstate.reset("keep")
         else:
             _init_state(init)
-        if hname.startswith(("T3", "T4", "T5")) and not W._PRE:
+        if hname.startswith(("T3", "T4", "T5", "I3", "I4", "I5")) and not W._PRE:
             for _n, _fn in bodies_named:
                 W.run_item(_fn)  # builds the shared prebuilt inputs outside the managed threads
         settings_before = _interpreter_settings()
